@@ -256,10 +256,45 @@ def execute(spec):
     return {"fam": spec["fam"], "case": case, "impl": impls["agg"]}
 
 
+def _reduce_floats(spec):
+    """the same clause on FLOAT columns: the whole-column reduction and the single-group aggregate (and window) of the very same
+    column must be the same number — judged here, on Python's own floats (the Lean model is exact and speaks about integers)"""
+    import warnings, math
+    from serif import Vector, Table
+    vals = spec["fvals"]
+    with warnings.catch_warnings():
+        warnings.simplefilter("ignore")
+        v = Vector(list(vals), name="x")
+        t = Table([Vector([0] * len(vals), name="k"), Vector(list(vals), name="x")])
+        bad = []
+        try:
+            a = t.aggregate(over="k", **{KW[f]: "x" for f in FNS})
+            w = t.window(over="k", **{KW[f]: "x" for f in FNS})
+        except Exception as e:
+            return {"skip": "aggregate raised " + type(e).__name__}
+        for f in ("sum", "mean", "min", "max", "stdev"):
+            try:
+                r = getattr(v, f)()
+            except Exception as e:
+                continue
+            for label, tab in (("aggregate", a), ("window", w)):
+                cells = list(storage(tab["x_" + f]))
+                g = cells[0] if cells else None
+                same = (r == g) or (isinstance(r, float) and isinstance(g, float) and math.isnan(r) and math.isnan(g))
+                if not same:
+                    bad.append(f"Vector.{f}() = {r!r} but {label}({KW[f]}=...) of the same column as one group = {g!r}")
+    out = {"fam": "reduce", "case": {"ints": []}, "impl": {"red": [], "agg": []}}
+    if bad:
+        out["py_fail"] = "; ".join(bad[:2]) + f" (column {vals!r})"
+    return out
+
+
 def _reduce(spec):
     """Vector reductions against aggregate over a single group"""
     import warnings
     from serif import Vector, Table
+    if "fvals" in spec:
+        return _reduce_floats(spec)
     vals = spec["vals"]
     red, agg = [], []
     if not vals:
@@ -446,6 +481,13 @@ def generate(rng, tier):
     for _ in range(300 if tier == "quick" else 6000):
         pool = rng.choice(VALPOOLS)
         yield {"fam": "reduce", "vals": [rng.choice(pool) for _ in range(rng.randint(1, 40))], "key": rng.choice([0, None, "a"])}
+    # float columns: whole-column reduction against the single-group aggregate / window, to the last bit
+    for _ in range(3000 if tier == "quick" else 60000):
+        n = rng.randint(2, 6)
+        scale = rng.choice([1.0, 1e-3, 1e3, 1e6])
+        fv = [None if rng.random() < 0.1 else rng.uniform(-1, 1) * scale * rng.choice([1, 1, 1e-6]) for _ in range(n)]
+        if sum(x is not None for x in fv) >= 2:
+            yield {"fam": "reduce", "fvals": fv}
     for i in range(20000 if tier == "quick" else 120000):
         yield random_spec(rng, "agg", interleave=(i % 3 == 0))
         if i % 10 == 0:
@@ -473,8 +515,8 @@ def _groups(wire):
 
 def nontrivial(spec, wire):
     if spec["fam"] == "reduce":
-        v = spec["vals"]
-        return sum(x is not None for x in v) >= 2 and any(x is None for x in v)
+        v = spec.get("vals", spec.get("fvals"))
+        return sum(x is not None for x in v) >= 2 and (any(x is None for x in v) or "fvals" in spec)
     if spec["fam"] == "malformed":
         return "err" in wire["impl"] or "err" in wire["impl"].get("win", {})
     keys, order, rows = _groups(wire)
@@ -484,9 +526,10 @@ def nontrivial(spec, wire):
 def histogram(spec, wire):
     fam = spec["fam"]
     if fam == "reduce":
-        n = len(spec["vals"])
+        vv = spec.get("vals", spec.get("fvals"))
+        n = len(vv)
         return ["reduce:len" + ("0" if n == 0 else "1-5" if n <= 5 else "6+"),
-                "reduce:all-none" if all(x is None for x in spec["vals"]) else "reduce:has-value"]
+                "reduce:all-none" if all(x is None for x in vv) else "reduce:has-value"] + (["reduce:floats"] if "fvals" in spec else [])
     keys, order, rows = _groups(wire)
     n = len(keys)
     out = [f"{fam}:rows " + ("0" if n == 0 else "1-4" if n <= 4 else "5-12" if n <= 12 else "13+"),
@@ -520,9 +563,10 @@ def histogram(spec, wire):
 
 def shrink(spec):
     if spec["fam"] == "reduce":
-        v = spec["vals"]
+        k = "fvals" if "fvals" in spec else "vals"
+        v = spec[k]
         for i in range(len(v)):
-            yield dict(spec, vals=v[:i] + v[i + 1:])
+            yield dict(spec, **{k: v[:i] + v[i + 1:]})
         return
     n = len(spec["cols"][0][1]) if spec["cols"] else 0
     # drop arguments
